@@ -166,6 +166,11 @@ theorem C11_last_commit_intact (sy : Bool) (cap : Nat) (F : Nat → Plan) (cs : 
       simp only [call]
       cases s.writer <;> simp only
       split <;> rfl
+    | waitMerges =>
+      exfalso; apply hne
+      simp only [call]
+      cases s.writer <;> simp only
+      split <;> rfl
     | gc =>
       exfalso; apply hne
       simp only [call]
@@ -297,6 +302,8 @@ theorem C11_error_reported (sy : Bool) (cap : Nat) (F : Nat → Plan) (cs : List
 
 example : (run false 4 (fun i p => i == 1 && p == .worker) 0 init [.newWriter, .add 1, .add 2, .commit]).2
     = [.ok, .ok, .err, .err] := by decide
+example : (run false 4 (fun i p => i == 1 && p == .worker) 0 init [.newWriter, .add 1, .waitMerges, .newWriter, .add 2, .waitMerges]).2
+    = [.ok, .ok, .err, .ok, .ok, .ok] := by decide
 example : (run false 4 (fun i p => i == 3 && p == .mergeThread) 0 init [.newWriter, .add 1, .commit, .merge, .merge]).2
     = [.ok, .ok, .ok, .err, .ok] := by decide
 
@@ -413,6 +420,11 @@ theorem C11_no_wait_cycle_partial (sy : Bool) (cap : Nat) (F : Nat → Plan) (cs
   | dropWriter =>
     simp only [call] at hh
     cases hs : s.writer <;> simp only [hs] at hh <;> cases hh
+  | waitMerges =>
+    simp only [call] at hh
+    cases hs : s.writer <;> simp only [hs] at hh
+    · cases hh
+    · split at hh <;> cases hh
   | merge =>
     simp only [call] at hh
     cases hs : s.writer <;> simp only [hs] at hh
